@@ -77,15 +77,29 @@ def emit(node, rng, mode='required', max_rep=1, depth=0, path=()):
             out.extend(Line(c.name, path) for _ in range(n))
         else:
             n = 1
-            if max_rep > 1 and (mx == -1 or mx > 1) and depth < 3 and _repeatable_group(c, mode):
+            if max_rep > 1 and (mx == -1 or mx > 1) and depth < 3:
                 n = rng.randint(1, max_rep if mx == -1 else min(mx, max_rep))
-            for r in range(n):
-                sub = emit(c, rng, mode, max_rep, depth + 1, path + ((c.name, r),))
+            r = 0
+            prev_names = None
+            for _ in range(n):
+                gpath = path + ((c.name, r),)
+                sub = emit(c, rng, mode, max_rep, depth + 1, gpath)
                 if not sub and mn >= 1:
                     # a required group whose members are all optional: ER7 cannot express an empty group, so a
                     # conforming instance holds at least its first member
-                    sub = _first_member(c, path + ((c.name, r),))
+                    sub = _first_member(c, gpath)
+                if not sub:
+                    continue
+                if prev_names is not None:
+                    # a further repetition is expressible only when it starts with a direct, non-repeatable member of the
+                    # group that the previous repetition already holds: its recurrence is what opens the new repetition
+                    first = sub[0]
+                    member = [x for x in c.children if x.kind == 'SEG' and x.name == first.seg]
+                    if first.path != gpath or not member or member[0].card[1] != 1 or first.seg not in prev_names:
+                        continue
+                prev_names = {l.seg for l in sub if l.path == gpath}
                 out.extend(sub)
+                r += 1
     return out
 
 
